@@ -160,7 +160,16 @@ func runC27(rc *RC) {
 	rc.Case(len(elems), cores, readMode, want[0].s)
 	rc.Notef("%d elements, cores=%d, read mode %d; first: %s", len(elems), cores, readMode, want[0].s)
 
+	// I/O error configuration (15% of runs, apart from the fault-free one):
+	// the disk fills up while writing, or a sector is bad while reading;
+	// neither may be reported as success
+	ioFault := rc.Pick(17, 1, 2)
+	rc.Knob("io-fault", ioFault)
 	var disk chunkWriter
+	if ioFault == 1 {
+		disk.hasFail, disk.failAt = true, rc.Draw(20+len(elems)*6)
+		rc.Configured("disk-full")
+	}
 	var werr error
 	if !rc.Guard(name+"/panic", func() {
 		var w *osm.Writer
@@ -176,6 +185,17 @@ func runC27(rc *RC) {
 	}) {
 		return
 	}
+	if ioFault == 1 {
+		if disk.failed {
+			rc.Fired("disk-full")
+			if werr == nil {
+				rc.Fail(name+"/write-reported-success-on-full-disk", "the disk was full after %d bytes (later writes returned an error) but every WriteElement and Flush returned nil", disk.failAt)
+			}
+		}
+		if disk.failed || werr != nil {
+			return // no complete file to read back
+		}
+	}
 	if werr != nil {
 		rc.Fail(name+"/write-failed", "writing %d elements failed: %v", len(elems), werr)
 		return
@@ -185,6 +205,10 @@ func runC27(rc *RC) {
 	}
 	rc.Configured("short-read")
 	sr := &shortReader{rc: rc, data: disk.buf.Bytes(), mode: readMode}
+	if ioFault == 2 {
+		sr.hasFail, sr.failAt = true, rc.Draw(disk.buf.Len())
+		rc.Configured("read-error")
+	}
 	per := make([][]readElem, cores+1)
 	var rerr error
 	rc.Sim(name, func() {
@@ -199,6 +223,13 @@ func runC27(rc *RC) {
 	})
 	if sr.n > 0 {
 		rc.Fired("short-read")
+	}
+	if ioFault == 2 && sr.failed {
+		rc.Fired("read-error")
+		if rerr == nil {
+			rc.Fail(name+"/read-reported-success-after-read-error", "reading the %d-byte file failed with an I/O error at byte %d but ReadPBFWithOptions (cores=%d) returned nil", disk.buf.Len(), sr.failAt, cores)
+		}
+		return // elements of the blocks before the bad sector were delivered; nothing more to compare
 	}
 	if rerr != nil {
 		rc.Fail(name+"/read-failed", "reading back %d elements with %d cores failed: %v", len(elems), cores, rerr)
